@@ -20,4 +20,15 @@ PROPS = {
             "mmap-backed sources are not reachable for content views through the public API (tables only); covered by C01/C14 runs on large tables",
         ],
     },
+    "C04": {
+        "theorems": "JubakoModel.Theorems.C04",
+        "harness": "c04",
+        "profiles": ["debug"],
+        "rule": "one case = one created container (packaging x compression, seeded contents) with, for every pack of every file: pristine verdicts (per pack, per file, container-wide), every byte position of [0, checkInfoPos+37) x masks {01,80,FF} on the small containers (sampled positions x {01,FF} on larger ones), multi-byte alterations, and CRC-recomputed alterations in pack header / kind header / pack-info checked part / pack-info location / stored hash; non-trivial = at least one alteration evaluated; distinct = distinct container spec",
+        "assumptions": [
+            "blake3 is a parameter of the theorems (explicit-collision disjunct); the driver's own blake3 is cross-checked against the blake3 crate on every pack (op b3)",
+            "verdicts are compared as true / not-true (error kinds of damaged files are compared by C05/C06)",
+            "forged check blocks (kind byte downgraded to 'none' or hash replaced by the hash of the altered content, with the CRC recomputed) are deliberate re-checksumming, outside the property",
+        ],
+    },
 }
